@@ -324,7 +324,8 @@ class Search:
             for alias in (X, "X._a._tcp.local.", Y):
                 got = cache.current_entry_with_name_and_alias(name, alias)
                 ent = model.recs.get(("PTR", TYPE_A, 1, alias.lower()))
-                want = ent is not None and not ent.expired(now) and ent.first[4] == alias
+                # names compare case-insensitively on every path (the cached record keeps its first spelling)
+                want = ent is not None and not ent.expired(now)
                 if (got is not None) != want or (got is not None and trip(got) != (ident(ent.first), ent.created, ent.ttl)):
                     problems.append(f"current_entry_with_name_and_alias({name!r},{alias!r}): {got and trip(got)} "
                                     f"but model says present={want}")
